@@ -67,12 +67,15 @@ func init() {
 			alpha := []cliEv{
 				{K: "start", I: 0}, {K: "start", I: 1}, {K: "start", I: 2},
 				{K: "resp", I: 0}, {K: "resp", I: 1}, {K: "resp", I: 2},
-				{K: "unknown"}, {K: "garbage", Arg: 0}, {K: "garbage", Arg: 1}, {K: "garbage", Arg: 2}, {K: "garbage", Arg: 3},
-				{K: "tick", Arg: 1},
+				{K: "resp", I: 0, Arg: 1}, {K: "unknown"}, {K: "unknown", Arg: 1},
+				{K: "garbage", Arg: 0}, {K: "garbage", Arg: 1}, {K: "garbage", Arg: 2}, {K: "garbage", Arg: 3},
+				{K: "tick", Arg: 1}, {K: "failagent"},
 			}
 			eps := []string{"drain+close"}
 			cliHistories(c, "C12", cliOpts{Fallback: true, PoolFanout: true}, alpha, depth, eps, "Hfb")
-			cliHistories(c, "C12", cliOpts{PoolFanout: true}, alpha, depth, eps, "H")
+			cliHistories(c, "C12", cliOpts{PoolFanout: true}, alpha, depth-1, eps, "H")
+			small := []cliEv{{K: "start", I: 0}, {K: "start", I: 1}, {K: "resp", I: 0}, {K: "resp", I: 1}, {K: "unknown"}, {K: "tick", Arg: 1}, {K: "failagent"}, {K: "failwrite"}}
+			cliHistoriesFrom(c, "C12", cliOpts{Fallback: true, PoolFanout: true}, []cliEv{{K: "start", I: 0}, {K: "resp", I: 0}}, small, depth, eps, "Hafter")
 			ev := func(k string, i int) cliEv { return cliEv{K: k, I: i} }
 			tickAfter := cliEv{K: "tick", Arg: 1}
 			pb := 2
